@@ -59,7 +59,13 @@ C3 == {ArrOf(<<x>>) : x \in C2}
 RECURSIVE Ws(_)
 Ws(bs) == IF bs = <<>> THEN <<>> ELSE (IF Head(bs) \in {91, 93, 123, 125, 44, 58} THEN <<32, Head(bs), 10, 9>> ELSE <<Head(bs)>>) \o Ws(Tail(bs))
 
+\* the same with carriage returns (CRLF-formatted documents): CR LF after every structural character and after every literal
+RECURSIVE WsCr(_)
+WsCr(bs) == IF bs = <<>> THEN <<>> ELSE (IF Head(bs) \in {91, 93, 123, 125, 44, 58} THEN <<13, 10, Head(bs), 13, 10>> ELSE <<Head(bs)>>) \o WsCr(Tail(bs))
+
 Init == /\ \/ \E us \in UnitSeqs : txt = DQ(us) /\ kind = "dq"
+           \/ \E c \in C1 \cup C2 : txt = WsCr(c) \o <<13, 10>> /\ kind = "json"
+           \/ \E c \in Leaves : \E w \in {<<13>>, <<13, 10>>, <<9>>, <<10>>, <<32>>} : txt = w \o c \o w /\ kind = "json"
            \/ \E us \in UnitSeqs : ~HasRawSq(us) /\ txt = SQ(us) /\ kind = "sq"
            \/ \E n \in Numerals \cup EdgeNumerals : txt = n /\ kind = "num"
            \/ \E c \in C1 \cup C2 \cup C3 : txt = c /\ kind = "json"
